@@ -62,7 +62,9 @@ def render_batch(items: List[Dict[str, Any]]) -> str:
         it["custom_repr"] = (sum(ord(ch) for ch in str(k)) % 4 == 1)
         akw = ", a_repr=TIGHT_REPR" if it["custom_repr"] else ""
         # parameters of the condition which the function does not have keep their own default values
-        lam_params = list(it["lam_params"]) + ["{}={!r}".format(n, v) for n, v in it.get("lam_defaults", {}).items()]
+        # (positional-or-keyword or, for every other such condition, keyword-only: `lambda a, *, G_INT=25: ...`)
+        lam_params = list(it["lam_params"]) + (["*"] if it.get("lam_defaults") and it.get("lam_kwonly") else []) + [
+            "{}={!r}".format(n, v) for n, v in it.get("lam_defaults", {}).items()]
         deco = "require" if it["role"] == "pre" else "ensure"
         if it["role"] == "inv":
             out.append("def make_{k}(c1):\n".format(k=k))
@@ -275,12 +277,16 @@ def judge(w, mod: Any, item: Dict[str, Any], twin: exprs.Twin, kwargs: Dict[str,
     for p in item["params"] + item.get("extra_params", []):
         if exprs.representable(kwargs[p]) and p not in keys_shown:
             missing.append(p)
+    # (names bound by an assignment expression are variables of the condition like its arguments: a later read is an evaluated name)
+    assigned = {n.target.id for n in ast.walk(ast.parse(item["expr"], mode="eval")) if isinstance(n, ast.NamedExpr)}
+    loop_vars = {n.id for c in ast.walk(ast.parse(item["expr"], mode="eval")) if isinstance(c, ast.comprehension) for n in ast.walk(c.target)
+                 if isinstance(n, ast.Name)}
     for idx, vals in twin.values.items():
         node = twin.nodes[idx]
         text = twin.node_text[idx]
         if isinstance(node, ast.Name):
-            if node.id in all_kwargs or node.id in closure or node.id in vars(mod):
-                if exprs.representable(vals[-1]) and text not in keys_shown and node.id not in named:
+            if node.id in all_kwargs or node.id in closure or node.id in vars(mod) or (node.id in assigned and node.id not in loop_vars):
+                if exprs.representable(vals[-1]) and text not in keys_shown:
                     missing.append(text)
         elif isinstance(node, ast.Attribute):
             if exprs.representable(vals[-1]) and text not in keys_shown:
@@ -341,7 +347,7 @@ def run_batch(w, batch_no: int, n_items: int, guarded_bias: float) -> None:
             extra = [x for x in ("G_INT", "c1", "G_LIST") if x in expr and rng.random() < 0.7]
         items.append({"k": "{}_{}".format(batch_no, i), "expr": expr, "params": params, "lam_params": lam, "role": role,
                       "c1": env.closure["c1"], "env": env, "shadow": shadow, "ret_value": None, "extra_params": extra,
-                      "snapshot_of": snapshot_of, "lam_defaults": lam_defaults})
+                      "snapshot_of": snapshot_of, "lam_defaults": lam_defaults, "lam_kwonly": rng.random() < 0.5})
     loaded = prog.load_source(render_batch(items), w.scratch())
     mod = loaded.module
     try:
